@@ -1,14 +1,55 @@
+# C01 — parsing and traversing untrusted font bytes never panics or hangs.
+# Parts 1 (core reader) and 3 (selected hand-written helpers) + the totality search live here.
+# The lead appends part 2 (generated table layouts): props "C01/LayoutProps.v", the Layout coq_targets,
+# and a second bin — the lists below are plain lists for that purpose.
+PROPS = ["C01/Props.v"]
+COQ_TARGETS = ["C01/Core.vo", "C01/Tables.vo", "C01/Proofs.vo", "C01/Examples.vo"]
+BINS = ["c01"]
+
 SPEC = dict(
     id="C01",
     bin="c01",
-    bins=["c01"],
+    bins=BINS,
     coq_dir="C01",
-    props=["C01/Props.v"],
-    coq_targets=["C01/Proofs.vo", "C01/Examples.vo"],
+    props=PROPS,
+    coq_targets=COQ_TARGETS,
     allowed_axioms=[],
     harness_timeout=3000,
-    level_text="(draft)",
-    level_note="(draft)",
-    technique="Coq proof over hand-written Gallina model + vm_compute correspondence + implementation-only totality search",
-    modelled=[], not_covered=[], assumptions=[],
+    level_text=("Unbounded Coq theorems (every byte list, every usize argument, usize = 2^64 explicit) about an executable model of "
+                "the read-fonts core reader: FontData::{read_at, read_be_at, read_ref_at, read_array, slice, split_off, take_up_to}, "
+                "every Cursor operation incl. the IFT varint, offset resolution, TableDirectory/FontRef::new/table_data (with std's "
+                "binary_search_by), TTCHeader read, and the hand-written helpers postscript Index1/Index2 (read, get_offset, get), "
+                "Loca::get_raw, VarLenArray get/iter, ComputedArray new/get/iter. Proved: no modelled operation reaches a panic site "
+                "(each unwrap / unchecked + / cast_slice is an explicit Panic outcome shown unreachable); read_at / read_array / "
+                "resolve specs; cursor position monotone, finish Ok iff position <= len, saturation cannot fake success; table_data "
+                "returns exactly file[offset, offset+length) of a record with the tag (any directory), complete on sorted directories; "
+                "iteration step bounds (<= len+1 calls). The model is tied to the code on every run by ~8.7k boundary-rich cases "
+                "(vm_compute vs the real public API). Everything else in read-fonts (generated tables through "
+                "traversal::SomeTable::get_field, cmap/glyf/gvar/CFF/COLR/bitmap/... helpers) is covered by an implementation-only "
+                "search: every font-test-data font x ~250k deterministic structure-aware mutations traversed under catch_unwind with a "
+                "hang watchdog and buffer-position / thread purity re-runs — partial for those."),
+    level_note=("Trusted: Coq kernel; the hand-written model coq/C01/Model.v (agreement with read-fonts is checked on generated cases, not "
+                "proved); std's binary_search_by as transcribed for rustc 1.95 (its observable choice among duplicate / unsorted tags is "
+                "part of the correspondence cases); the harness generator. Cursor is crate-private: its operations are tied through "
+                "the generated readers that use them (TableDirectory, TTCHeader, Index1/2, SegmentMaps); read_u32_var has a model and "
+                "theorems but no public entry point, so it is not tied. Stack depth and wall-clock time are only observed (watchdog), "
+                "not proved. Known violation of the purity clause: Colr PaintId depends on the buffer address (reported as an oracle failure)."),
+    technique="Coq proof over hand-written Gallina model + vm_compute correspondence with read-fonts + implementation-only totality/purity search",
+    modelled=["read-fonts/src/font_data.rs: FontData::{split_off, take_up_to, slice, read_at, read_be_at, read_ref_at, read_array, check_in_bounds}, "
+              "Cursor::{advance, advance_by, read, read_be, read_array, read_with_args, read_computed_array, read_u32_var, position, remaining_bytes, remaining, is_empty, finish}",
+              "read-fonts/src/offset.rs: Offset::non_null, ResolveOffset::resolve, ResolveNullableOffset::resolve",
+              "read-fonts/generated/font.rs: TableDirectory::read + getters, TTCHeader::read + getters; read-fonts/src/lib.rs: FontRef::{new, with_table_directory, table_data}, CollectionRef::{new, get}",
+              "core::slice::binary_search_by (rustc 1.95) as used by table_data",
+              "read-fonts/generated/generated_postscript.rs Index1/Index2::read + getters; src/tables/postscript/index.rs read_offset, get_offset, get",
+              "read-fonts/src/tables/loca.rs Loca::{read, len, get_raw}; src/array.rs VarLenArray::{get, iter}, ComputedArray::{new, get, iter}; read.rs VarSize::read_len_at; post.rs PString::read; avar.rs SegmentMaps::{read, read_len_at}; gvar.rs U16Or32"],
+    not_covered=["generated table layouts (read + *_byte_range + getters of ~250 tables): part 2, coq/C01/Layout*.v (other builder); here only exercised by the traversal search",
+                 "all other hand-written table code (cmap 4/12/14, glyf points/components, gvar/cvar tuples, HVAR/VVAR/MVAR deltas, CFF charset/DICT, COLR, CBLC/EBLC/sbix/SVG, GDEF class/coverage, VARC, name/post strings): implementation-only search, no theorem in C01 (C08-C11, C14, C16 prove parts)",
+                 "CollectionRef::get totality is tested (op 11) but only TTCHeader::read totality is proved",
+                 "read_u32_var: modelled and proved total/monotone, not tied (no public entry point)",
+                 "stack overflow and wall-clock termination: observed by the watchdog only; recursion depth is not modelled",
+                 "32-bit targets (usize = 2^32): not modelled"],
+    assumptions=["usize is 64 bits; a byte slice has length <= isize::MAX and elements in [0,256) ([valid] in the theorems)",
+                 "Rust integer semantics as in coq/Lib/RustInt.v; overflow-checks profile for unchecked + and *",
+                 "bytemuck::cast_slice::<u8,T> panics exactly when the length is not a multiple of size_of::<T>() (all T used are align-1)"],
+    trusted_base=["std::slice::binary_search_by transcribed by hand for the installed rustc (1.95.0)"],
 )
